@@ -20,7 +20,8 @@
  R5 lumped once    : Raman solver: per-section / per-step loss factors are a selection of the lumped-loss array (never an
                      accumulation) while the start power of a section is the end of the previous one.
  R6 lumped all     : every declared lumped loss reaches the solver grid (same-position losses are cumulated, not selected).
- R7 channel order  : SpectralInformation re-orders every per-channel array (CD, PMD, PDL, latency included) with one argsort.
+ R7 channel order  : SpectralInformation re-orders every per-channel array (CD, PMD, PDL, latency included) with one argsort;
+                     mux / demux build every field of the result from the same-named field of the operands (shared with C01-R2).
 """
 import ast
 
@@ -463,8 +464,12 @@ def r7_channel_order(ctx):
     """R7: the accumulated per-channel quantities (chromatic dispersion, PMD, PDL, latency) stay attached to their channels
     whenever a spectrum is (re)built: SpectralInformation re-orders EVERY per-channel array with the one argsort of the
     frequencies (shared with C01-R2)"""
-    from .c01 import init_permutation
-    init_permutation(ctx, 'R7.channel-order')
+    from .c01 import r2_base
+    from .common import proxy
+    # constructor permutation + field-by-field mapping of every spectrum (re)construction site (select_channels, __add__):
+    # CD / PMD / PDL / latency of the result come from the same-named field of the operands
+    r2_base(proxy(ctx, 'R7'))
+    ctx.need('R7.init-permutation', 16)
 
 
 def rk_field_key(ctx):
